@@ -5,15 +5,17 @@
 # build from /repo).  Scratch dirs: /tmp/mrepo, /tmp/mverif (kept between calls for the cargo cache;
 # remove with `git -C /repo worktree remove --force /tmp/mrepo; rm -rf /tmp/mverif`).
 patch="$1"; pid="$2"; tier="${3:-quick}"
+# MUT_SLOT=<suffix> selects another scratch pair (/tmp/mrepo<suffix>, /tmp/mverif<suffix>) for parallel trials
+M=/tmp/mrepo${MUT_SLOT:-}; V=/tmp/mverif${MUT_SLOT:-}
 head=$(git -C /repo rev-parse HEAD)
-if [ ! -d /tmp/mrepo ]; then git -C /repo worktree add --detach /tmp/mrepo "$head" >/dev/null 2>&1 || exit 2; fi
-git -C /tmp/mrepo checkout -q -- . && git -C /tmp/mrepo checkout -q --detach "$head" || exit 2
-git -C /tmp/mrepo apply "$patch" || { echo "patch does not apply"; exit 2; }
-mkdir -p /tmp/mverif
-rsync -a --delete --exclude .cache --exclude work --exclude replays --exclude .git --exclude evidence ${VERIF_SRC:-/verif}/ /tmp/mverif/
-mkdir -p /tmp/mverif/evidence
-sed -i 's#path = "/repo"#path = "/tmp/mrepo"#' /tmp/mverif/harness/Cargo.toml
-sed -i 's#lock_src = "/repo/Cargo.lock"#lock_src = "/tmp/mrepo/Cargo.lock"#' /tmp/mverif/bin/check
-cd /tmp/mverif && bin/check "$pid" --tier "$tier"; rc=$?
-git -C /tmp/mrepo checkout -q -- .
+if [ ! -d $M ]; then git -C /repo worktree add --detach $M "$head" >/dev/null 2>&1 || exit 2; fi
+git -C $M checkout -q -- . && git -C $M checkout -q --detach "$head" || exit 2
+git -C $M apply "$patch" || { echo "patch does not apply"; exit 2; }
+mkdir -p $V
+rsync -a --delete --exclude .cache --exclude work --exclude replays --exclude .git --exclude evidence ${VERIF_SRC:-/verif}/ $V/
+mkdir -p $V/evidence
+sed -i "s#path = \"/repo\"#path = \"$M\"#" $V/harness/Cargo.toml
+sed -i "s#lock_src = \"/repo/Cargo.lock\"#lock_src = \"$M/Cargo.lock\"#" $V/bin/check
+cd $V && bin/check "$pid" --tier "$tier"; rc=$?
+git -C $M checkout -q -- .
 echo "check exit=$rc"
